@@ -1,8 +1,69 @@
-/- driver component stub: replaced by the real component when its model exists -/
+/- driver component `tps`: formatTPS / Spec writer / parseTPS / Grammar / Canonical.
+   Strings travel as hex code points joined by `.` (`-` = the empty string), so spaces,
+   newlines and non-ASCII characters survive the line protocol. -/
 import TakVerif.Driver.Ser
+import TakVerif.Model.TPS
+import TakVerif.Spec.TPSGrammar
 
 namespace Tak.Driver.TPS
+open Tak.Ser
 
-def handle : List String → Option String := fun _ => none
+def hexDigit? (c : Char) : Option Nat :=
+  if '0' ≤ c ∧ c ≤ '9' then some (c.toNat - '0'.toNat)
+  else if 'a' ≤ c ∧ c ≤ 'f' then some (c.toNat - 'a'.toNat + 10)
+  else if 'A' ≤ c ∧ c ≤ 'F' then some (c.toNat - 'A'.toNat + 10)
+  else none
+
+def hexNat? (s : String) : Option Nat :=
+  if s.isEmpty then none
+  else s.toList.foldlM (fun acc c => (hexDigit? c).map (acc * 16 + ·)) 0
+
+def decodeChar (tok : String) : Option Char := do
+  let n ← hexNat? tok
+  if h : n.isValidChar then some (Char.ofNatAux n h) else none
+
+/-- `-` → "", `68.69` → "hi" -/
+def decode (s : String) : Option (List Char) :=
+  if s = "-" then some [] else (s.splitOn ".").mapM decodeChar
+
+def hexOf (n : Nat) : String :=
+  let ds := Nat.toDigits 16 n
+  String.ofList (List.replicate (4 - ds.length) '0' ++ ds)
+
+def encode (cs : List Char) : String :=
+  if cs.isEmpty then "-" else ".".intercalate (cs.map fun c => hexOf c.toNat)
+
+def showResult : Except Err Pos → String
+  | .ok q => s!"ok {showPos q}"
+  | .error e => showErr e
+
+/-- ops:
+  `format <pos7>`    → hex text              (TPS.formatTPS, the model of format_tps)
+  `write <pos7>`     → hex text              (Spec.TPS.writeTPS, the reference writer)
+  `parse <hex>`      → `ok <pos>` | `illegal` | `crash <cls>`   (TPS.parseTPS)
+  `grammar <hex>`    → `true` | `false`      (Spec.TPS.Grammar)
+  `canonical <hex>`  → `true` | `false`      (Spec.TPS.Canonical)
+  `tpswf <pos7>`     → `true` | `false`      (Spec.TPS.TPSWF)
+-/
+def handle : List String → Option String
+  | "format" :: rest => do
+    let p ← parsePos rest
+    pure (encode (Tak.TPS.formatTPS p))
+  | "write" :: rest => do
+    let p ← parsePos rest
+    pure (encode (Tak.Spec.TPS.writeTPS p))
+  | ["parse", h] => do
+    let t ← decode h
+    pure (showResult (Tak.TPS.parseTPS t))
+  | ["grammar", h] => do
+    let t ← decode h
+    pure (toString (Tak.Spec.TPS.grammarb t))
+  | ["canonical", h] => do
+    let t ← decode h
+    pure (toString (Tak.Spec.TPS.canonicalb t))
+  | "tpswf" :: rest => do
+    let p ← parsePos rest
+    pure (toString (decide (Tak.Spec.TPS.TPSWF p)))
+  | _ => none
 
 end Tak.Driver.TPS
